@@ -135,6 +135,23 @@ impl Sample {
                 .ok_or(Error::EdsIndexOutOfRange(0, id.column_index()))?,
         };
 
+        // The proof only tells that the share is somewhere in the row (column). Make
+        // sure it was proven at the position requested by the `SampleId`, otherwise
+        // any other share of the same row (column) would be accepted.
+        let index = match self.proof_type {
+            AxisType::Row => u32::from(id.column_index()),
+            AxisType::Col => u32::from(id.row_index()),
+        };
+
+        if self.proof.start_idx() != index || self.proof.end_idx() != index + 1 {
+            bail_validation!(
+                "proof is for shares {}..{} but sample is at index {}",
+                self.proof.start_idx(),
+                self.proof.end_idx(),
+                index
+            );
+        }
+
         self.proof
             .verify_range(&root, &[&self.share], *self.share.namespace())
             .map_err(Error::RangeProofError)
